@@ -52,7 +52,27 @@ def run(tier, rep):
     if tier == 'quick':
         wcfg = [w for i, w in enumerate(wcfg) if i % 4 == vlib.SEED % 4]
     res2, d2 = dxlib.run_dx('plain', wcfg, 'c02w', layers if tier == 'quick' else 'A,B1', 'ref', phases=1, deadline=deadline)
-    c01.aggregate(rep, res + res2, True, ('ref',), 'genbbsub',
+    # re-initialisation chains on the same working objects (plumbing API, same bbpars, no reset): predecessor = the same
+    # isotope's ground-state/no-window configuration (or another mode), then the configuration itself
+    chain = []
+    acc_cfg = [r['config'] for r in accepted if 'crashed' not in r]
+    for i, c in enumerate(acc_cfg):
+        if tier == 'quick' and i % 6 != vlib.SEED % 6:
+            continue
+        if c['level'] > 0:
+            pre = 'dbd %s 0 %d -1 -1' % (c['name'], c['mode'] if any(a['name'] == c['name'] and a['level'] == 0 and a['mode'] == c['mode'] for a in acc_cfg) else 1)
+        else:
+            pre = 'dbd %s 0 %d -1 -1' % (c['name'], 4 if c['mode'] != 4 else 1)
+        if not any(a['name'] == pre.split()[1] and a['level'] == 0 and a['mode'] == int(pre.split()[3]) for a in acc_cfg):
+            continue
+        chain.append('dbd %s %d %d -1 -1 PRE %s' % (c['name'], c['level'], c['mode'], pre))
+    for i, w in enumerate(wcfg):
+        if i % 3 == 0:
+            t = w.split()
+            chain.append('%s PRE dbd %s %s %s -1 -1' % (w, t[1], t[2], t[3]))
+    res3, d3 = dxlib.run_dx('plain', chain, 'c02c', 'A' if tier == 'quick' else 'A,B1', 'ref', phases=1, deadline=deadline)
+    rep.coverage['reinitialisation_chains'] = len(res3)
+    c01.aggregate(rep, res + res2 + res3, True, ('ref',), 'genbbsub',
                   'configurations = every (isotope, level 0..17, mode 1..20) the reference GENBBsub accepts (grid of %d requests enumerated, acceptance '
                   'compared on each) plus energy windows on the window-capable modes; per configuration: same initialisation stream on both sides '
                   '(toallevents, deviates consumed and the 4300-bin first-lepton spectrum table compared), then layers %s of the deviate explorer '
